@@ -276,7 +276,7 @@ theorem addOrRenew_err (h : Bytes → Bytes) (f : File) (avail : Nat) (li : Leas
       simp only [Option.some.injEq] at he
       subst he
       rcases hr e' (by rw [heq]) with x | x
-      · subst x; exact (hne f').elim
+      · subst x; exact (hne rfl).elim
       · exact Or.inr (Or.inr x)
 
 end Tahoe.Storage.Mutable
